@@ -1,8 +1,12 @@
 package c04
 
 import (
+	"fmt"
 	"strings"
 	"testing"
+
+	"github.com/tdewolff/parse/v2"
+	"github.com/tdewolff/parse/v2/js"
 
 	"verif/internal/ev"
 )
@@ -45,6 +49,33 @@ func progClassExprName() []node {
 func progForBodyShadow() []node {
 	body := []node{&exprStmt{e: &ref{name: "a"}}, &varDecl{kind: "let", decls: []patElem{{target: &decl{name: "a"}}}}}
 	return []node{&forIn{of: true, kind: "var", lhs: &decl{name: "a"}, rhs: &ref{name: "b"}, body: body}}
+}
+
+// K-C04-4: a name with 65536 occurrences: the uint16 counter wraps
+func TestKnown_UsesWrap(t *testing.T) {
+	known := ev.KnownFindings("C04")
+	src := strings.Repeat("a;", 65536)
+	ast, err := js.Parse(parse.NewInputString(src), js.Options{})
+	if err != nil {
+		t.Fatalf("flat program rejected: %v", err)
+	}
+	var v *js.Var
+	for _, u := range ast.BlockStmt.Scope.Undeclared {
+		if string(u.Data) == "a" {
+			v = u
+		}
+	}
+	if v == nil {
+		t.Fatalf("a is not an undeclared variable of the outermost scope")
+	}
+	if int(v.Uses) == 65536 {
+		return // repaired
+	}
+	if _, listed := known["K-C04-4"]; listed {
+		ev.ReportKnown("C04", "K-C04-4", fmt.Sprintf("\"a;\"*65536: Var.Uses = %d, the name is printed 65536 times (uint16 counter)", v.Uses))
+	} else {
+		t.Errorf("K-C04-4: \"a;\"*65536: Var.Uses = %d, the name is printed 65536 times", v.Uses)
+	}
 }
 
 func TestKnown_Scoping(t *testing.T) {
